@@ -33,6 +33,9 @@ impl InstructionGenerator {
         for i in 0..else_if_blocks.len() {
             let else_if_block = else_if_blocks[i].clone();
             self.label(&format!("else-if-{}", i), pos);
+            // RESUME after a failing ELSEIF condition evaluates it again
+            // (the nearest mark before it would be the one that closes the previous block)
+            self.mark_statement_address();
 
             // evaluate condition into A
             self.generate_expression_instructions(else_if_block.condition);
